@@ -23,6 +23,15 @@ def warmup():
 
 
 def mon(s, obs):
+    if s.case.get("dupdep"):
+        # the same task listed twice (in two spellings) is a duplicate dependency: rejected, nothing may execute
+        v = []
+        if s.starts or s.running_lines:
+            v.append(("once:duplicate-dep-executed", "a task lists %s twice (two spellings); tasks were executed: %s"
+                      % (s.ids[s.case["dupdep"][1]], sorted({s.ids[n] for _, n, _ in s.starts}))))
+        if s.exit == 0:
+            v.append(("once:duplicate-dep-accepted", "a task lists %s twice (two spellings) but cond run exits 0" % s.ids[s.case["dupdep"][1]]))
+        return v
     v = rungrid.mon_once(s, success_only=True)
     if s.exc is not None or s.exit != 0:
         v.append(("once:run-failed", "cond run exited %r (%s) although every task succeeds" % (s.exit, s.exc)))
@@ -72,6 +81,13 @@ def items(tier):
                             pars = [k in ("cmd", "exp") and jobs > 1 for k in kinds]
                             add(dict({"g": g, "kinds": kinds, "pars": pars, "jobs": jobs, "cached": cached, "git": git,
                                       "empty_index": True}, **flags))
+    # one dependency listed twice under two spellings
+    for g in rungrid.graphs_upto((2, 3)):
+        n = len(g)
+        for node in range(n):
+            for dep in g[node]:
+                for kinds in (["cmd"] * n, ["exp"] * n):
+                    add({"g": g, "kinds": kinds, "pars": [False] * n, "jobs": 1, "dupdep": [node, dep]})
     # n = 4: every listing order, experiments everywhere / mixed, cache states without git + at-least with git
     for g in rungrid.graphs_upto((4,), shared_only_from=4 if tier == "quick" else None):
         for kinds in (["exp"] * 4, ["cmd", "exp", "cmd", "exp"], ["combine", "exp", "exp", "cmd"]):
